@@ -158,8 +158,7 @@ package util
 // that two different ids have different 8-digit suffixes is an assumption no contract can discharge. ===========================
 //@ pure func md5hex(k int) string
 //@ ghost var lasthashed string
-//@ func MD5ToHexdigest(content string) string
-//@   property C06
-//@   flag contract
+//@ extern func util.MD5ToHexdigest(content string) string
 //@   modifies lasthashed
-//@   ensures lasthashed === content && result == md5hex(key(content)) && len(result) == 32
+//@   ghostset lasthashed := content
+//@   ensures result == md5hex(key(content)) && len(result) == 32
